@@ -291,3 +291,36 @@ PROPERTIES["C08"] = {
     "bounds": {"quick": {"stride": "flow 96, basin 64, others 8"}, "thorough": {"stride": "flow 6, basin 4, hist 2, others 1"}},
     "deadline": {"quick": 900, "thorough": 3000},
 }
+
+
+PROPERTIES["C11"] = {
+    "engine": "mcsched",
+    "level_text": "stateless exploration of the real thread_pool under a cooperative scheduler: std::atomic, "
+                  "std::mutex, std::condition_variable and std::thread are substituted by shim types (macro around "
+                  "the #include, no source hook) whose every operation is a scheduling point; all schedules within "
+                  "the preemption bound are executed (one forked process each) for the call patterns the library "
+                  "issues; each execution is judged on exactly-once execution, block shape, completion before "
+                  "return, hang (no enabled thread, with spin-loop blocking) and data races (vector-clock "
+                  "happens-before detector honouring the memory orders the code passes); the block arithmetic is "
+                  "enumerated exhaustively without threads",
+    "level_note": "sequentially consistent interleavings only (weak-memory behaviours are not enumerated; the "
+                  "happens-before detector flags what the C++ model leaves unordered); 2 workers (quick) / 2-3 "
+                  "(thorough); preemption bound 2 un-cached on the single patterns, bound 1-2 with state caching on "
+                  "multi-pattern scenarios (cache key = complete scheduler + detector state; the un-cached bound is "
+                  "the stated guarantee); one or two spurious wake-ups as a separately bounded environment deviation",
+    "technique": "preemption-bounded exhaustive schedule exploration (CHESS-style) of the implementation under a "
+                 "controlled scheduler, happens-before race detector",
+    "harnesses": [{"name": "mc_pool"}],
+    "rule": "states = distinct scheduler states at choice points (hash of atomics, lock owners, waiter sets, pending "
+            "operations + call contexts, vector clocks, detector shadow); transitions = scheduling steps; "
+            "evaluations = executions (schedules); non-trivial = executions with at least one preemptive switch; "
+            "distinct = distinct sequences of choice-point states",
+    "assumptions": ["spin-loop rule: a thread repeating a load of the same location from the same call context with no "
+                    "intervening store is blocked until a store to that location (safety net: three forced re-reads "
+                    "before a hang is declared)",
+                    "job inputs / outputs are modelled by explicit plain-access events in the harness callbacks",
+                    "pool constructed as flow_graph does (pool(10), never started before the first dispatch)"],
+    "bounds": {"quick": {"workers": "2 (3 after a resize)", "preemptions": "2 (single pattern, un-cached), 1 (two patterns, un-cached), 2 (cached)"},
+               "thorough": {"workers": "2-3", "preemptions": "3 (single pattern, un-cached), unbounded (cached), 2 elsewhere"}},
+    "deadline": {"quick": 600, "thorough": 3000},
+}
